@@ -723,15 +723,26 @@ func (p *Parser) parseFunctionParameters() ([]ast.Node, bool) {
 		return identifiers, false
 	}
 	p.nextToken()
-	ident := &ast.Identifier{}
-	ident.Token = p.curToken
-	identifiers = append(identifiers, ident)
-	for p.peekTokenIs(token.COMMA) {
-		p.nextToken()
-		p.nextToken()
+	for {
+		// A parameter is a name (or .. for the variadic part), not whatever token comes: 'func (1) {}', or a NUL byte
+		// (read as the end of the input) in the list, used to be accepted.
+		if t := p.curToken.Type(); t != token.IDENT && t != token.DOTDOT {
+			if t == token.EOL {
+				p.continuationNeeded = true
+				return nil, false
+			}
+			errLine, lineNum := p.ErrorLine(true)
+			p.addError(fmt.Sprintf("%d: expected a parameter name, got `%s` instead:\n%s", lineNum, p.curToken.Literal(), errLine))
+			return nil, false
+		}
 		ident := &ast.Identifier{}
 		ident.Token = p.curToken
 		identifiers = append(identifiers, ident)
+		if !p.peekTokenIs(token.COMMA) {
+			break
+		}
+		p.nextToken()
+		p.nextToken()
 	}
 	if !p.expectPeek(token.RPAREN) {
 		return nil, false
